@@ -277,6 +277,7 @@ type vfC15World struct {
 	lists    []*vfC15List
 	pending  *vfC15Pending
 	refreshs int
+	restarts int
 	fillerN  int
 }
 
@@ -322,7 +323,25 @@ func (w *vfC15World) newFilter(t vfC15TB) {
 	}
 	d.RegisterFilteringHandlers()
 	d.EnableFilters(false)
+	// admin calls queue their rebuild of the engines for the worker goroutine;
+	// the world has none and works the queue off itself (see drain)
+	d.filtersInitializerChan = make(chan filtersInitializerParams, 1)
 	w.d = d
+}
+
+// drain carries out the rebuilds that admin calls have queued, as the worker
+// goroutine would.
+func (w *vfC15World) drain(t vfC15TB) {
+	for {
+		select {
+		case params := <-w.d.filtersInitializerChan:
+			if err := w.d.initFiltering(params.allowFilters, params.blockFilters); err != nil {
+				t.Fatalf("rebuilding the engines: %v", err)
+			}
+		default:
+			return
+		}
+	}
 }
 
 func (w *vfC15World) close() {
@@ -1192,10 +1211,69 @@ func (w *vfC15World) failedRepoint(t *rapid.T) {
 	vfC15.Class("refresh:failed_repoint:" + l.kind())
 }
 
+// addList adds one more block list through POST /control/filtering/add_url; its
+// source delivers a first version at once.  The list then takes part in the
+// refreshes like the others -- and none of the others may be touched by it.
+func (w *vfC15World) addList(t *rapid.T) {
+	if len(w.lists) >= 6 {
+		t.Skip("enough lists")
+	}
+	l := &vfC15List{Idx: len(w.lists) + 1}
+	l.URL = fmt.Sprintf("%s/l/%d", w.srv.srv.URL, l.Idx)
+	label := fmt.Sprintf("add%d", l.Idx)
+	l.Ver++
+	body := vfC15Render(t, label, w.freshRules(t, label, l, l.Ver), "")
+	exps := vfC15Expectations(body)
+	if len(exps) != 1 || exps[0].Err || exps[0].Count == 0 {
+		t.Skip("the drawn text is not a list with rules")
+	}
+	a := &vfC15Act{Kind: "ok", Variant: "fresh", Ver: l.Ver, Body: body}
+	w.install(t, l, a)
+	req, _ := json.Marshal(map[string]any{"name": fmt.Sprintf("list %d", l.Idx), "url": l.URL, "whitelist": false})
+	code, resp := w.call(t, http.MethodPost, "/control/filtering/add_url", req)
+	if code != http.StatusOK {
+		t.Fatalf("add_url of a list with %d rules refused: %d %s", exps[0].Count, code, resp)
+	}
+	w.drain(t)
+	// the identifier the program has given it
+	_, sbody := w.call(t, http.MethodGet, "/control/filtering/status", nil)
+	st := vfC15Status{}
+	if err := json.Unmarshal(sbody, &st); err != nil {
+		t.Fatalf("GET /control/filtering/status: %v", err)
+	}
+	for _, f := range st.Filters {
+		if f.URL == l.URL {
+			l.ID = rulelist.URLFilterID(f.ID)
+		}
+	}
+	if l.ID == 0 {
+		t.Fatalf("the added list %s is not in the status", l.URL)
+	}
+	for _, o := range w.lists {
+		if o.ID == l.ID {
+			t.Fatalf("the added list %s was given the identifier %d, which list %d (%s) has: both are stored in %s",
+				l.URL, l.ID, o.Idx, o.kind(), w.filterPath(o))
+		}
+	}
+	w.lists = append(w.lists, l)
+	p := vfC15NewPending(fmt.Sprintf("add_url of list %d", l.Idx))
+	p.changed[l.Idx] = true
+	p.newNF[l.Idx] = exps[0]
+	p.raw[l.Idx] = body
+	p.outcomes[l.Idx] = "changed"
+	w.pending = p
+	l.Hist = append(l.Hist, "add=changed")
+	vfC15.Class("refresh:add_list")
+	if w.restarts > 0 {
+		vfC15.Class("refresh:add_list_after_restart")
+	}
+}
+
 func (w *vfC15World) restart(t vfC15TB) {
 	w.d.Close()
 	w.newFilter(t)
 	w.pending = vfC15NewPending("restart")
+	w.restarts++
 	vfC15.Class("refresh:restart")
 }
 
@@ -1276,6 +1354,7 @@ func TestVFC15Refresh(t *testing.T) {
 			},
 			"restart":        func(t *rapid.T) { w.restart(t) },
 			"failed_repoint": func(t *rapid.T) { w.failedRepoint(t) },
+			"add_list":       func(t *rapid.T) { w.addList(t) },
 			"":               func(t *rapid.T) { w.verify(t) },
 		})
 
